@@ -1,6 +1,9 @@
 package mpb
 
-import "container/heap"
+import (
+	"container/heap"
+	"context"
+)
 
 func vBars4() [4]*Bar {
 	var bars [4]*Bar
@@ -83,4 +86,30 @@ func vhC06Lazy() {
 	}
 	vAssert(vHeapOK(pq), "C06.lazy.heap-restored-by-next-cycle")
 	vCover("C06.lazy.reach")
+}
+
+// C06 (default priority is creation order; an explicit BarPriority is honoured whatever its value): the real
+// makeBarState for the n-th bar of a container, with and without an explicit priority.
+func vhC06MakeBarState() {
+	ps := pState{idCount: vInt("idCount")}
+	vAssume(ps.idCount >= 0)
+	explicit := vBool("explicit")
+	prio := vInt("priority")
+	var opts []BarOption
+	if explicit {
+		opts = append(opts, BarPriority(prio))
+	}
+	if vBool("withID") {
+		opts = append(opts, BarID(vInt("id")))
+	}
+	bs := ps.makeBarState(vInt64("total"), NopStyle().Build(), opts...)
+	if explicit {
+		vAssert(bs.priority == prio, "C06.make.explicit-priority-honoured")
+	} else {
+		vAssert(bs.priority == ps.idCount, "C06.make.default-priority-is-creation-order")
+	}
+	b := newBar(context.Background(), &Progress{}, bs)
+	vAssert(b.priority == bs.priority, "C06.make.bar-carries-the-priority")
+	b.cancel()
+	vCover("C06.make.reach")
 }
